@@ -774,6 +774,18 @@ pub fn run(ctx: &Ctx) -> (Spec, Report) {
                     model.gparams = gparams;
                     generic_items = true;
                 }
+                // container instances two levels deep, in several positions (they are keys of the mapping tables above)
+                if rng.chance(1, 3) {
+                    let vv = Ty::Vec(Box::new(Ty::Vec(Box::new(Ty::Prim("u8")))));
+                    let mv = Ty::Map(Box::new(Ty::Prim("String")), Box::new(Ty::Vec(Box::new(Ty::Prim("u8")))));
+                    let vm = Ty::Vec(Box::new(Ty::Map(Box::new(Ty::Prim("String")), Box::new(Ty::Prim("u32")))));
+                    model.fields.push(vv.clone());
+                    model.fields.push(Ty::Opt(Box::new(mv.clone())));
+                    model.fields.push(Ty::Vec(Box::new(vm.clone())));
+                    model.aliases.push(mv);
+                    model.payloads.push(vm);
+                    model.aliases.push(Ty::Opt(Box::new(vv)));
+                }
                 // user types as map keys (typeshare accepts them)
                 if rng.chance(1, 3) {
                     model.fields.push(Ty::Map(Box::new(Ty::user("UserB")), Box::new(gen_ty(rng, &cx, 2))));
@@ -798,6 +810,12 @@ pub fn run(ctx: &Ctx) -> (Spec, Report) {
                     if matches!(l, LangId::Ts | LangId::Go | LangId::Python) {
                         for (k, v) in [("Vec<u8>", "MappedBytes"), ("HashMap<String,u32>", "MappedCounts"), ("[u8]", "MappedArr"), ("&[u8]", "MappedSlice"), ("Option<u8>", "MappedOpt")] {
                             if rng.chance(1, 3) {
+                                tm.insert(k.to_string(), v.to_string());
+                            }
+                        }
+                        // instances whose element is itself a container (the key is the Rust spelling of the whole type)
+                        for (k, v) in [("Vec<Vec<u8>>", "MappedMatrix"), ("HashMap<String,Vec<u8>>", "MappedBlobMap"), ("Vec<HashMap<String,u32>>", "MappedCountList")] {
+                            if rng.chance(1, 2) {
                                 tm.insert(k.to_string(), v.to_string());
                             }
                         }
@@ -829,7 +847,7 @@ pub fn run(ctx: &Ctx) -> (Spec, Report) {
     rep.merge(keyword_named_types());
     let spec = Spec {
         level: "exploration",
-        rule: format!("all {} type expressions of depth <= 2 over {{14 primitives, (), user type, generic parameter, generic instance}} closed under Vec, [T;3], [T;0], &[T], Option, &T, 8 smart pointers, generic user type and HashMap with 7 key types (exhaustive, {} programs), plus random trees of depth <= 5; positions field / newtype payload / alias target / const type (a sixth of the fields and payloads given through `serialized_as` on an opaque Rust type) / generic alias, generic newtype struct and generic tagged-enum payload whose target mentions the item's own parameters, struct variants that mention a parameter only at depth 2-3 or only as a map key (TS, Kotlin, Swift, Scala); random prefix and type_mappings tables (user types and generic bases for all backends, container instances for TS/Go/Python), path qualification varied; each use site is parsed back into a tree and compared with an independent reference translation under per-language JSON-category and integer-range tables; plus user types whose own names are Swift keywords (Type, Protocol, Any) referred to from 11 positions under 3 prefixes in Swift and Kotlin, where every spelling of the name in the output must be the declared one; distinct = (language, position, depth, outer constructor)", exh.len(), n_exh),
+        rule: format!("all {} type expressions of depth <= 2 over {{14 primitives, (), user type, generic parameter, generic instance}} closed under Vec, [T;3], [T;0], &[T], Option, &T, 8 smart pointers, generic user type and HashMap with 7 key types (exhaustive, {} programs), plus random trees of depth <= 5; positions field / newtype payload / alias target / const type (a sixth of the fields and payloads given through `serialized_as` on an opaque Rust type) / generic alias, generic newtype struct and generic tagged-enum payload whose target mentions the item's own parameters, struct variants that mention a parameter only at depth 2-3 or only as a map key (TS, Kotlin, Swift, Scala); random prefix and type_mappings tables (user types and generic bases for all backends, container instances one and two levels deep for TS/Go/Python), path qualification varied; each use site is parsed back into a tree and compared with an independent reference translation under per-language JSON-category and integer-range tables; plus user types whose own names are Swift keywords (Type, Protocol, Any) referred to from 11 positions under 3 prefixes in Swift and Kotlin, where every spelling of the name in the output must be the declared one; distinct = (language, position, depth, outer constructor)", exh.len(), n_exh),
         assumptions: vec![
             "TypeScript has no nullable form at type level: an Option nested inside a container may translate to the bare element type".into(),
             "Go `int` and `uint` are taken at their guaranteed 32 bits; Python int is unbounded".into(),
